@@ -22,6 +22,7 @@ RULE = ('Hypothesis generates SED files (2..20 wavelengths in either storage ord
         'under several spellings) and requested units B, C from the same set; checks read(A->B) against the reference, '
         'A->B->A identity, A->B->C == A->C via convert_flux, and that targets K / m / Hz are refused. Non-trivial = stored '
         'and requested units of different families (F_nu, F, L); distinct = distinct canonical JSON.')
+RULE += (' ' + "Files in double or single precision ('E' columns), a quarter with faint fluxes (x 1e-16); cells whose value or intermediate leaves the single-precision range are not compared.")
 ASSUMPTIONS = [
     'relative tolerance 1e-12 (a handful of float multiplications)',
     'luminosity-type values follow L = F*d^2 as the property states (no 4 pi)',
